@@ -27,7 +27,7 @@ static const char *const sg_name[SG_N]  = { "ndots",   "timeout", "attempts", "r
 
 typedef struct {
   int      used[SG_N];
-  char     expect[SG_N][400];
+  char     expect[SG_N][2400];
   int      via[SG_N]; /* 0 resolv.conf, 1 RES_OPTIONS, 2 LOCALDOMAIN, 3 nsswitch, 4 netsvc, 5 svc */
   cfg_bb_t resolv, resopt;
   int      last_was_options; /* the last line of resolv is an options line */
@@ -203,6 +203,30 @@ static void sg_add(vh_rng_t *r, sg_plan_t *p, cfg_sys_t *sys, int kind)
       /* `domain` takes one name; c-ares documents LOCALDOMAIN as a single value as well
        * (test/ares-test-init.cc: "LOCALDOMAIN -> search (single value)") */
       int    n   = how != 0 ? 1 : vh_range(r, 1, 4), k, taken[4] = { -1, -1, -1, -1 };
+      if (how == 0 && vh_chance(r, 1, 8)) {
+        /* a long list (container platforms write up to 32 domains / 2048 characters): every domain counts */
+        int    m = vh_range(r, 10, 32), q;
+        size_t eo = 0;
+        cfg_bb_t line2 = { 0 };
+        p->expect[kind][0] = 0;
+        for (q = 0; q < m; q++) {
+          char d[80];
+          snprintf(d, sizeof(d), "ns%02d.a-rather-long-namespace-name.svc.cluster%d.example", q, q % 3);
+          if (q) {
+            sg_ws(r, &line2);
+          }
+          cfg_bb_str(&line2, d);
+          eo += (size_t)snprintf(p->expect[kind] + eo, sizeof(p->expect[kind]) - eo, "%s,", d);
+        }
+        cfg_bb_ch(&line2, 0);
+        cfg_bb_str(&p->resolv, "search ");
+        cfg_bb_str(&p->resolv, line2.b);
+        cfg_bb_str(&p->resolv, "\n");
+        cfg_bb_free(&line2);
+        p->via[kind]        = 0;
+        p->last_was_options = 0;
+        break;
+      }
       size_t off = 0;
       cfg_bb_t line = { 0 };
       p->expect[kind][0] = 0;
@@ -351,6 +375,18 @@ static void sg_add_hosts(vh_rng_t *r, sg_plan_t *p, cfg_sys_t *sys)
       cfg_bb_str(&bb, vh_chance(r, 1, 2) ? "# 192.0.2.98 alpha\n" : "\n");
     }
   }
+  if (vh_chance(r, 1, 3) && p->nhosts + 2 <= 8) {
+    /* the two lines every stock hosts file has */
+    cfg_bb_str(&bb, "127.0.0.1\tlocalhost\n::1     localhost ip6-localhost ip6-loopback\n");
+    snprintf(p->hosts[p->nhosts].name, sizeof(p->hosts[0].name), "localhost");
+    snprintf(p->hosts[p->nhosts].canon, sizeof(p->hosts[0].canon), "localhost");
+    snprintf(p->hosts[p->nhosts].ip, sizeof(p->hosts[0].ip), "127.0.0.1");
+    p->hosts[p->nhosts++].family = AF_INET;
+    snprintf(p->hosts[p->nhosts].name, sizeof(p->hosts[0].name), "localhost");
+    snprintf(p->hosts[p->nhosts].canon, sizeof(p->hosts[0].canon), "localhost");
+    snprintf(p->hosts[p->nhosts].ip, sizeof(p->hosts[0].ip), "::1");
+    p->hosts[p->nhosts++].family = AF_INET6;
+  }
   cfg_sys_set_file(sys, CF_HOSTS, bb.b, bb.len);
   cfg_bb_free(&bb);
 }
@@ -391,7 +427,20 @@ static int sg_check_lookups(const sg_plan_t *p, ares_channel_t *ch, const char *
     if (rc == ARES_SUCCESS && he && he->h_addr_list && he->h_addr_list[0]) {
       ares_inet_ntop(he->h_addrtype, he->h_addr_list[0], got, sizeof(got));
     }
-    if (rc != ARES_SUCCESS || strcmp(got, p->hosts[k].ip) != 0 || he->h_name == NULL ||
+    if (rc == ARES_SUCCESS && he && he->h_addr_list && he->h_addr_list[0] && he->h_addr_list[1] != NULL) {
+      /* every name of the generated file stands on one line of its family: one address */
+      int   na = 0;
+      char *w  = cfg_witness(sys);
+      char  key[120];
+      while (he->h_addr_list[na]) {
+        na++;
+      }
+      snprintf(key, sizeof(key), "cfg15:single:hosts:address-count:%s", stage);
+      vh_violation(key, "hosts lookup of %s (family %d) returned %d addresses, the file has one line for it | %.900s",
+                   p->hosts[k].name, p->hosts[k].family, na, w);
+      free(w);
+      nv++;
+    } else if (rc != ARES_SUCCESS || strcmp(got, p->hosts[k].ip) != 0 || he->h_name == NULL ||
         strcasecmp(he->h_name, p->hosts[k].canon) != 0) {
       char  key[120];
       char *w = cfg_witness(sys);
